@@ -176,8 +176,28 @@ static VIOLATIONS: AtomicU64 = AtomicU64::new(0);
 /// First violation: kind, then the request, then the offending values.
 static FIRST: [AtomicUsize; 12] = [const { AtomicUsize::new(0) }; 12];
 
+extern "C" {
+    fn write(fd: i32, buf: *const u8, count: usize) -> isize;
+}
+
+/// Allocation-free note on stderr, so that the first violation is known even
+/// if the code under test goes on to crash the process (e.g. by copying
+/// through the fabricated pointers of a marked request).
+fn note_first_violation(kind: usize) {
+    let mut buf = [0u8; 96];
+    let mut n = 0;
+    for part in [b"dv-alloc-first-violation class=" as &[u8], kind_name(kind).as_bytes(), b"\n"] {
+        buf[n..n + part.len()].copy_from_slice(part);
+        n += part.len();
+    }
+    unsafe {
+        write(2, buf.as_ptr(), n);
+    }
+}
+
 fn violation(kind: usize, req: Req, other: Req, a: usize, b: usize) {
     if VIOLATIONS.fetch_add(1, Relaxed) == 0 {
+        note_first_violation(kind);
         let vals = [
             kind, req.method as usize, req.ptr, req.size, req.align, req.new_size,
             other.method as usize, other.ptr, other.size, other.align, a, b,
@@ -290,17 +310,20 @@ unsafe impl<A: GlobalAlloc> GlobalAlloc for Outer<A> {
 impl Spy {
     #[inline]
     fn call(&self, req: Req, forward: impl FnOnce() -> usize) -> usize {
+        let mut mismatch = false;
         let scripted = T
             .try_with(|t| {
                 if t.depth.get() == 0 {
                     violation(V_NO_REQUEST, req, NO_REQ, 0, 0);
                 } else if t.cur.get() != req {
                     violation(V_ARGS, t.cur.get(), req, 0, 0);
+                    mismatch = true;
                 }
                 let c = t.inner_calls.get() + 1;
                 t.inner_calls.set(c);
                 if c > 1 {
                     violation(V_EXTRA_CALL, t.cur.get(), req, c as usize, 0);
+                    mismatch = true;
                 }
                 if t.depth.get() == 1 {
                     t.cur_mark.get()
@@ -311,6 +334,10 @@ impl Spy {
             .ok()
             .flatten();
         let ret = match scripted {
+            // An inner call that is not the marked request itself (other
+            // arguments, or a second call) is answered "null": the request's
+            // pointers are fabricated, and the violation is already recorded.
+            Some(_) if mismatch => 0,
             Some(v) => v,
             None => forward(),
         };
@@ -847,7 +874,7 @@ fn check(tier: common::Tier) -> i32 {
         let _ = std::fs::create_dir_all(&rdir);
         let path = rdir.join(format!("C09-{seed}.json"));
         std::fs::write(&path, serde_json::to_string_pretty(&body).unwrap()).unwrap();
-        println!("class={}", body["violation"]["class"]);
+        println!("class={}", body["violation"]["class"].as_str().unwrap_or("unknown"));
         println!("detail={}", body["violation"]);
         println!("VIOLATION property=C09 replay={}", path.display());
         return 1;
